@@ -39,7 +39,7 @@ def workbook(draw):
         cols.append({'kind': 'vib', 'header': 'vib_wavenumber'})
     for _ in range(draw(st.integers(0, 3))):
         cols.append({'kind': 'rot', 'header': 'rot_temperature'})
-    for nm in draw(st.lists(st.sampled_from(['T_data', 'shifts', 'temperatures', 'labels']), max_size=2, unique=True)):
+    for nm in draw(st.lists(st.sampled_from(['T_data', 'shifts', 'temperatures', 'labels', 'T_ref2', 'site1', 'x0', 'v1_5']), max_size=2, unique=True)):
         k = draw(st.integers(1, 3))
         numbered = draw(st.booleans())
         for i in range(k):
